@@ -557,3 +557,7 @@ func init() {
 		return orig + "\nif o.trafficSeen != nil {\nclose(o.trafficSeen)\n}"
 	})
 }
+
+func init() {
+	ctl("TableCache.Run returns without waiting for the dispatcher", "V-JOIN", "Run|returns only after", "cache", "TableCache", "Run", kStmt, "wg.Wait()", 0, to("<-stopCh"))
+}
